@@ -11,15 +11,20 @@
                      (double multiplication rounded to 53 bits, truncation, int16 range check)
      ImplRgb         mem.led_driver_memory / led_timings_driver_memory  RGB888 -> RGB565 * intensity
      ImplRange/ImplLh      crazyflie.localization.Localization._incoming / _decode_lh_angle
+     Receive         the same decoder on ONE Localization object over a stream of packets whose
+                     decoded objects the receiver keeps (environment: the application's callback
+                     puts every LocalizationPacket aside -- a queue to another thread, a
+                     per-base-station cache -- and reads it after later packets have arrived)
 
    The state machine enumerates a case step by step (kind, then one argument per step -- this
    keeps the branching small for `tlc -simulate`), evaluates the codec in one `Eval` step and
    keeps (kind, args, out) for the invariants, which apply the CodecsProps clauses.
+   A "stream" case is several steps long: three arguments per packet, one `Receive` per packet.
    Bug # "none" switches on one named defect (pre-fix behaviour or a mutant).              *)
 EXTENDS Integers, Sequences, FiniteSets, CodecsNum
 
 CONSTANTS Bug,
-          Kinds,          \* subset of {"fp16", "quat", "mm", "dd", "rgb", "range", "lh"}
+          Kinds,          \* subset of {"fp16", "quat", "mm", "dd", "rgb", "range", "lh", "stream"}
           HiBytes,        \* fp16: high bytes enumerated (low byte always 0..255)
           K,              \* quat: components in -K..K
           MmCoarse, DdCoarse,   \* traj: coarse grid points; value = (coarse*64 + fine) * 2^-Shift
@@ -29,12 +34,20 @@ CONSTANTS Bug,
           F32s,           \* range/lh: float32 values as 4-byte sequences (sequence of them)
           LhBases,        \* lh: the first LhBases entries of F32s (finite) serve as base angles
           LhPos,          \* lh: which of the six offset slots are swept
-          OffHi           \* lh: high bytes of the half-float offset that is swept
+          OffHi,          \* lh: high bytes of the half-float offset that is swept
+          StreamLen,      \* stream: packets per stream (all received by one Localization object)
+          StreamBases,    \* stream: the first StreamBases entries of F32s serve as base angles
+          StreamPos,      \* stream: which offset slot differs from the fixed pattern
+          StreamOffHi     \* stream: high bytes of that half-float offset (low byte 0)
 
 P == INSTANCE CodecsProps
 
-VARIABLES kind, args, out, prev, phase
-vars == <<kind, args, out, prev, phase>>
+VARIABLES kind, args, out, prev, phase,
+          heap,           \* stream: the decoded objects that exist (sequence of ImplLh results)
+          kept            \* stream: what the receiver holds, per packet received so far:
+                          \*   [data: the bytes the device sent, now: the decoded values seen at
+                          \*    delivery, ref: index into heap of the object that was delivered]
+vars == <<kind, args, out, prev, phase, heap, kept>>
 
 Abs(x) == IF x < 0 THEN -x ELSE x
 Num(c, s, m, e) == [c |-> c, s |-> s, m |-> m, e |-> e, t |-> "float"]
@@ -236,13 +249,15 @@ ImplLh(data) ==
         y |-> <<by, ImplAngle(by, oy(1)), ImplAngle(by, oy(2)), ImplAngle(by, oy(3))>>]
 
 \* ================================================================ state machine
-Init == kind = "none" /\ args = <<>> /\ out = <<>> /\ prev = <<>> /\ phase = "kind"
+Init == /\ kind = "none" /\ args = <<>> /\ out = <<>> /\ prev = <<>> /\ phase = "kind"
+        /\ heap = <<>> /\ kept = <<>>
 
 PickKind(k) == /\ phase = "kind" /\ k \in Kinds
-               /\ kind' = k /\ phase' = "args" /\ UNCHANGED <<args, out, prev>>
+               /\ kind' = k /\ phase' = "args" /\ UNCHANGED <<args, out, prev, heap, kept>>
 
 NArgs == CASE kind = "fp16" -> 2 [] kind = "quat" -> 4 [] kind = "mm" -> 2 [] kind = "dd" -> 2
-           [] kind = "rgb" -> 4 [] kind = "range" -> 1 [] kind = "lh" -> 4 [] OTHER -> 0
+           [] kind = "rgb" -> 4 [] kind = "range" -> 1 [] kind = "lh" -> 4
+           [] kind = "stream" -> 3 * StreamLen [] OTHER -> 0
 ArgDom(i) == CASE kind = "fp16" -> IF i = 1 THEN HiBytes ELSE 0..255
                [] kind = "quat" -> (-K)..K
                [] kind = "mm" -> IF i = 1 THEN MmCoarse ELSE 0..63
@@ -251,9 +266,13 @@ ArgDom(i) == CASE kind = "fp16" -> IF i = 1 THEN HiBytes ELSE 0..255
                [] kind = "range" -> 0..2
                [] kind = "lh" -> IF i = 1 THEN 1..LhBases ELSE IF i = 2 THEN LhPos
                                  ELSE IF i = 3 THEN OffHi ELSE 0..255
+               [] kind = "stream" -> IF i % 3 = 1 THEN 1..StreamBases ELSE IF i % 3 = 2 THEN StreamPos
+                                     ELSE StreamOffHi
                [] OTHER -> {}
+\* (stream: the arguments of the next packet are chosen only after the previous one was received)
 PickArg(v) == /\ phase = "args" /\ Len(args) < NArgs /\ v \in ArgDom(Len(args) + 1)
-              /\ args' = Append(args, v) /\ UNCHANGED <<kind, out, prev, phase>>
+              /\ kind = "stream" => Len(args) < 3 * (Len(kept) + 1)
+              /\ args' = Append(args, v) /\ UNCHANGED <<kind, out, prev, phase, heap, kept>>
 
 QNums(a) == [i \in 1..4 |-> NumD(DInt(a[i]))]
 TrajX(k, coarse, fine, shift) ==
@@ -264,9 +283,11 @@ RangeData(n) == Flatten([j \in 1..n |-> <<(<<0, 7, 255>>)[j]>> \o F32s[((j + n) 
 LhData(b, p, h) ==
     LET off(i) == IF i = p THEN <<h % 256, h \div 256>> ELSE IF i % 2 = 0 THEN <<0, 128>> ELSE <<0, 0>>
     IN <<1>> \o F32s[b] \o off(1) \o off(2) \o off(3) \o F32s[b] \o off(4) \o off(5) \o off(6)
+\* n-th packet of a stream: two base stations (1, 0, 1, ...) take turns
+StreamData(n, b, p, hi) == <<n % 2>> \o Tail(LhData(b, p, hi * 256))
 RgbArgs(ch, lvl, o1, o2) == IF ch = 1 THEN <<lvl, o1, o2>> ELSE IF ch = 2 THEN <<o1, lvl, o2>> ELSE <<o1, o2, lvl>>
 
-Eval == /\ phase = "args" /\ Len(args) = NArgs
+Eval == /\ phase = "args" /\ Len(args) = NArgs /\ kind # "stream"
         /\ kind = "quat" => args # <<0, 0, 0, 0>>
         /\ phase' = IF kind = "rgb" THEN "sweep" ELSE "done"
         /\ out' = CASE kind = "fp16" -> ImplFp16(args[1] * 256 + args[2])
@@ -277,16 +298,36 @@ Eval == /\ phase = "args" /\ Len(args) = NArgs
                                        [lvl |-> 0, b |-> ImplRgb(a[1], a[2], a[3], args[2])]
                     [] kind = "range" -> [data |-> RangeData(args[1]), o |-> ImplRange(RangeData(args[1]))]
                     [] kind = "lh" -> LET dd == LhData(args[1], args[2], args[3] * 256 + args[4]) IN [data |-> dd, o |-> ImplLh(dd)]
-        /\ UNCHANGED <<kind, args, prev>>
+        /\ UNCHANGED <<kind, args, prev, heap, kept>>
+
+\* One angle-stream packet arrives at the Localization object that has received the earlier ones.
+\* _decode_lh_angle builds a NEW dict with NEW lists for every packet (heap grows), the
+\* LocalizationPacket that is handed to the receiver refers to it, and the receiver keeps it.
+\* Bug = "LhSharedBuffer": the decoder fills one preallocated dict and its lists in place, every
+\* delivered packet refers to that one object.
+Receive == /\ phase = "args" /\ kind = "stream" /\ Len(args) = 3 * (Len(kept) + 1)
+           /\ LET n  == Len(kept) + 1
+                  dd == StreamData(n, args[3 * n - 2], args[3 * n - 1], args[3 * n])
+                  r  == ImplLh(dd)
+              IN /\ IF Bug = "LhSharedBuffer" /\ heap # <<>>
+                       THEN /\ heap' = [heap EXCEPT ![1] = r]
+                            /\ kept' = Append(kept, [data |-> dd, now |-> r, ref |-> 1])
+                       ELSE /\ heap' = Append(heap, r)
+                            /\ kept' = Append(kept, [data |-> dd, now |-> r, ref |-> Len(heap) + 1])
+                 /\ out' = [data |-> dd, o |-> r]
+                 /\ phase' = IF n = StreamLen THEN "done" ELSE "args"
+           /\ UNCHANGED <<kind, args, prev>>
 
 \* next level of an RGB sweep
 Sweep == /\ phase = "sweep" /\ out.lvl < 255
          /\ prev' = P!RgbFields(out.b[1], out.b[2])
          /\ LET a == RgbArgs(args[1], out.lvl + 1, args[3], args[4]) IN
             out' = [lvl |-> out.lvl + 1, b |-> ImplRgb(a[1], a[2], a[3], args[2])]
-         /\ UNCHANGED <<kind, args, phase>>
+         /\ UNCHANGED <<kind, args, phase, heap, kept>>
 
-Next == (\E k \in Kinds : PickKind(k)) \/ (\E v \in ArgDom(Len(args) + 1) : PickArg(v)) \/ Eval \/ Sweep
+Next == \/ \E k \in Kinds : PickKind(k)
+        \/ \E v \in ArgDom(Len(args) + 1) : PickArg(v)
+        \/ Eval \/ Sweep \/ Receive
 Spec == Init /\ [][Next]_vars
 
 \* ---------------------------------------------------------------- invariants: the C13 clauses
@@ -301,5 +342,8 @@ RgbOK   == (Evaluated /\ kind = "rgb") =>
 RangeOK == (Evaluated /\ kind = "range") => P!RangeClause(out.data, out.o) = "ok"
 LhOK    == (Evaluated /\ kind = "lh") =>
               P!LhClause(out.data, out.o) = "ok"
+\* every packet the receiver holds still shows what the device encoded in THAT packet
+KeptOK  == kind = "stream" =>
+              \A i \in DOMAIN kept : P!LhKeptClause(kept[i].data, kept[i].now, heap[kept[i].ref]) = "ok"
 TypeOK  == phase \in {"kind", "args", "sweep", "done"}
 =============================================================================
